@@ -70,6 +70,8 @@ type Runtime struct {
 	OpFaults map[int]string
 	// NoParkSubscribe names primitives whose event-stream opens are served without parking (see subscribe).
 	NoParkSubscribe func(prim string) bool
+	// KindCount counts executed writes by "<primitive>/<rpc>" (fault trigger after-write)
+	KindCount map[string]int
 	// LateAck selects write operations whose acknowledgement is a scheduled action of its own ("ack/..."): the write has
 	// taken effect and its events flow while the caller still waits for the response (slow response, descheduled caller).
 	LateAck   func(prim, op, key string) bool
@@ -212,6 +214,10 @@ func (r *Runtime) write(ctx context.Context, prim, op, key string, fn func(p *Pr
 		}
 		r.Writes++
 		r.Ver++
+		if r.KindCount == nil {
+			r.KindCount = map[string]int{}
+		}
+		r.KindCount[prim+"/"+op]++
 		keys, _ := fn(p, false)
 		en := 0
 		if r.Eff != nil {
